@@ -551,6 +551,17 @@ class CFG(object):
     def can_reach(self, a, b, avoid=frozenset()):
         return b in self.reach(a, avoid)
 
+    def body_entry(self, loop):
+        """First node of the body of loop header `loop`."""
+        for s in self.succ[loop]:
+            if loop in self.nodes[s].loops:
+                return s
+        raise AnalysisError('loop without body in %s' % self.func.fq)
+
+    def in_every_iteration(self, loop, n):
+        """Node n (inside loop) executes in every iteration that runs to the end of the body."""
+        return loop in self.nodes[n].loops and self.postdominates(n, self.body_entry(loop))
+
     def assumes_at(self, n):
         """assume nodes that dominate n (facts established on every path to n)."""
         return [self.nodes[d] for d in sorted(self.dom.get(n, ())) if self.nodes[d].kind == 'assume']
